@@ -105,4 +105,4 @@ def params_fp(est):
 def fitted_fp(est, skip=()):
     """Fingerprint of the fitted (trailing underscore) attributes of an estimator."""
     d = {k: v for k, v in vars(est).items() if k.endswith("_") and not k.startswith("__") and k not in skip}
-    return fp(d)
+    return fp(d, skip=skip)
